@@ -824,9 +824,10 @@ def Commandable(
             if _debug:
                 Commandable._debug("    - default_value: %r", default_value)
 
-            # see if a present value was provided
+            # see if a present value was provided, with nothing commanded yet
+            # it is the relinquish default
             if presentValue not in kwargs:
-                setattr(self, presentValue, default_value)
+                setattr(self, presentValue, kwargs.get(relinquishDefault, default_value))
 
             # see if a priority array was provided
             if priorityArray not in kwargs:
